@@ -914,6 +914,7 @@ class Interp:
 
     def ev_JoinedStr(self, n):
         toks = []
+        formatted = []
         for v in n.values:
             if isinstance(v, ast.Constant):
                 toks.append(('lit', str(v.value)))
@@ -924,8 +925,15 @@ class Interp:
                     toks.extend(tx.tokens)
                 else:
                     toks.append(('num', self.new_sym('v'), x))
+                    if v.format_spec is not None and is_num(x) and not isinstance(x, Lit):
+                        formatted.append(unparse(v.format_spec))
         t = TStr(toks)
         self.check_pairs(t, n)
+        if formatted and self.quantity_of(S(t), n) is not None:
+            # a quantity string is read again by the library: a format specification writes a fixed number of digits
+            # (':f' keeps six decimals), so the amount that is parsed back is not the amount that was computed
+            self.sink(n, 'qstr-format', False, f"the number of a quantity string that is parsed again is written with the "
+                                               f"format {formatted[0]}: digits beyond it are dropped")
         return S(t)
 
     def ev_FormattedValue(self, n):
